@@ -207,6 +207,9 @@ func (cs *c13Case) run() (obs, oracle string) {
 			ret <- r
 		}()
 		if cs.mode == "dial" {
+			// the dial itself is instantaneous here: a dial timeout far below every hello delay bounds the
+			// dialing only, the handshake that follows is bounded by HandshakeTimeout
+			opt.DialTimeout = 10 * time.Millisecond
 			opt.Dialer = &c13Dialer{conn: conn}
 			r.client, r.err = ch.Dial(context.Background(), opt)
 		} else {
